@@ -55,6 +55,7 @@ func c14(c *Ctx) {
 			ops     []boltOp
 			buckets map[string]bool
 			tb      *ir.TB
+			tree    map[*ssa.Function]bool
 		}
 		methods := map[string]*minfo{}
 		for _, k := range kinds {
@@ -70,7 +71,28 @@ func c14(c *Ctx) {
 				fk := c.FK(fn)
 				c.R.Note("functions", fk)
 				// collect bolt operations in the method and its closures
-				tree := c.Closure([]*ssa.Function{fn}, true, func(f *ssa.Function) bool { return load_FuncPkgPath(f) != PkgPersist })
+				// the method's own code: static callees inside the package and function literals nested in them.
+				// Calls through function-typed parameters (withDB(func(db) error {...})) are not resolved through
+				// the call graph - that would pull in the literals every other method passes to the same helper;
+				// the literal this method passes is lexically nested in it and is included that way.
+				tree := map[*ssa.Function]bool{}
+				var grow func(f *ssa.Function)
+				grow = func(f *ssa.Function) {
+					if f == nil || tree[f] || len(f.Blocks) == 0 || load_FuncPkgPath(f) != PkgPersist {
+						return
+					}
+					tree[f] = true
+					for _, a := range f.AnonFuncs {
+						grow(a)
+					}
+					Calls(f, func(cc ssa.CallInstruction) {
+						if st := ir.Callee(cc).Static; st != nil && ir.Callee(cc).Closure == nil {
+							grow(st)
+						}
+					})
+				}
+				grow(fn)
+				mi.tree = tree
 				// terms are built in the context of this method: parameters of helpers shared by several
 				// methods are resolved through the call site inside this method's own call tree
 				tb := ir.NewTB(c.P.IsRepoFunc, c.P.FuncKey)
@@ -228,29 +250,114 @@ func c14(c *Ctx) {
 			}
 		}
 
-		checkTxnReturn := func(mi *minfo, fk string) {
-			// the method returns the transaction's error
-			ei := errResultIndex(mi.fn)
-			okRet := false
-			tbi := ir.NewTB(c.P.IsRepoFunc, c.P.FuncKey)
-			silent := ""
-			for _, r := range ir.Returns(mi.fn) {
+		// outcome of an error value: does it (on every path that can yield nil) stem from the transaction?
+		//   txn    - the value is the result of DB.Update/View (possibly handed through helpers that
+		//            return what the function literal they are given returns)
+		//   silent - position of a nil-capable result that did not come from the transaction
+		fn0 := func(ins ssa.Instruction) *ssa.Function { return ins.Parent() }
+		var errOutcomes func(fn *ssa.Function, bind map[*ssa.Parameter]ssa.Value, depth int) (txn bool, silent string)
+		var valueOutcome func(ev ssa.Value, facts []ir.Fact, pos string, bind map[*ssa.Parameter]ssa.Value, depth int) (bool, string)
+		valueOutcome = func(ev ssa.Value, facts []ir.Fact, pos string, bind map[*ssa.Parameter]ssa.Value, depth int) (bool, string) {
+			rv := ir.Resolve(ev)
+			if !mayBeNilError(ev, facts) || !mayBeNilError(rv, facts) {
+				return false, "" // a failure is handed on: nothing to show
+			}
+			if phi, ok := rv.(*ssa.Phi); ok && depth < 6 {
+				txn, silent := false, ""
+				for i, e := range phi.Edges {
+					t2, s2 := valueOutcome(e, factsAt(phi.Block(), phi.Block().Preds[i]), pos, bind, depth+1)
+					txn = txn || t2
+					if s2 != "" {
+						silent = s2
+					}
+				}
+				return txn, silent
+			}
+			call, isCall := rv.(*ssa.Call)
+			if ex, isEx := rv.(*ssa.Extract); isEx {
+				// `return helper(...)` with several results: the error component of the helper's tuple
+				if tc, ok := ex.Tuple.(*ssa.Call); ok {
+					if st := ir.Callee(tc).Static; st != nil && errResultIndex(st) == ex.Index {
+						call, isCall = tc, true
+					}
+				}
+			}
+			if ok := isCall; ok && depth < 6 {
+				if strings.HasPrefix(ir.CallName(call), "(*"+boltPkg+".DB).") {
+					return true, ""
+				}
+				// the function literal handed to a helper, invoked through the helper's parameter
+				if p, isParam := call.Call.Value.(*ssa.Parameter); isParam && bind != nil {
+					if fv, ok := bind[p]; ok {
+						switch f := ir.Resolve(fv).(type) {
+						case *ssa.MakeClosure:
+							return errOutcomes(f.Fn.(*ssa.Function), nil, depth+1)
+						case *ssa.Function:
+							return errOutcomes(f, nil, depth+1)
+						}
+					}
+				}
+				if st := ir.Callee(call).Static; st != nil && ir.Callee(call).Closure == nil && load_FuncPkgPath(st) == PkgPersist && len(st.Blocks) > 0 && errResultIndex(st) >= 0 {
+					nb := map[*ssa.Parameter]ssa.Value{}
+					for i, q := range st.Params {
+						if i < len(call.Call.Args) {
+							nb[q] = call.Call.Args[i]
+						}
+					}
+					return errOutcomes(st, nb, depth+1)
+				}
+			}
+			// a named result spilled to memory (functions with defers): any of the values stored into it
+			if u, ok := rv.(*ssa.UnOp); ok && u.Op == token.MUL && depth < 6 {
+				if al, ok := u.X.(*ssa.Alloc); ok {
+					if stores := ir.StoresTo(al); len(stores) > 0 {
+						txn, silent := false, ""
+						for _, st := range stores {
+							if ir.IsNilConst(st.Val) && st.Block() == fn0(st).Blocks[0] {
+								continue // zero initialisation of the named result
+							}
+							t2, s2 := valueOutcome(st.Val, ir.BlockFacts(st.Block()), c.P.Pos(st.Pos()), bind, depth+1)
+							txn = txn || t2
+							if s2 != "" {
+								silent = s2
+							}
+						}
+						return txn, silent
+					}
+				}
+			}
+			if mayBeNilError(ev, facts) {
+				return false, pos
+			}
+			return false, ""
+		}
+		errOutcomes = func(fn *ssa.Function, bind map[*ssa.Parameter]ssa.Value, depth int) (bool, string) {
+			ei := errResultIndex(fn)
+			txn, silent := false, ""
+			if ei < 0 || depth > 6 {
+				return false, ""
+			}
+			for _, r := range ir.Returns(fn) {
+				if r.Block() == fn.Recover {
+					continue // the compiler-generated return taken after a recovered panic
+				}
 				vias := []*ssa.BasicBlock{nil}
 				if phi, ok := ir.Resolve(r.Results[ei]).(*ssa.Phi); ok && phi.Block() == r.Block() {
 					vias = r.Block().Preds
 				}
 				for _, via := range vias {
-					ev := ir.ResultVia(r, ei, via)
-					t := tbi.Of(ev, nil)
-					isTxn := t.Has(func(x *ir.Term) bool { return strings.HasPrefix(x.Op, "call:(*"+boltPkg+".DB).") })
-					if isTxn {
-						okRet = true
-					} else if mayBeNilError(ev, factsAt(r.Block(), via)) {
-						// success reported without the transaction having run: a silent no-op
-						silent = c.P.Pos(r.Pos())
+					t2, s2 := valueOutcome(ir.ResultVia(r, ei, via), factsAt(r.Block(), via), c.P.Pos(r.Pos()), bind, depth)
+					txn = txn || t2
+					if s2 != "" {
+						silent = s2
 					}
 				}
 			}
+			return txn, silent
+		}
+		checkTxnReturn := func(mi *minfo, fk string) {
+			// the method returns the transaction's error
+			okRet, silent := errOutcomes(mi.fn, nil, 0)
 			if okRet && silent != "" {
 				c.R.Bad("R-results", fk+"|txn-error-returned", fk, silent, "the method can report success (nil error) on a path that never ran the transaction: the operation is silently skipped and a later load returns something else than what was saved")
 			} else if okRet {
@@ -342,19 +449,41 @@ func c14(c *Ctx) {
 						}
 						// unmarshal target is the variable the method returns
 						tgt := ir.RootP(um.Call.Args[1], mi.tb.ParamCallers)
-						returned := false
-						for _, r := range ir.Returns(mi.fn) {
-							rv := ir.Resolve(r.Results[0])
-							if u, ok := rv.(*ssa.UnOp); ok && u.Op == token.MUL && (ir.Root(u.X) == tgt || u.X == tgt) {
-								returned = true
-							}
-							if al, ok := tgt.(*ssa.Alloc); ok {
-								t := tb.Of(r.Results[0], nil)
-								if t.Has(func(x *ir.Term) bool { return x.Val != nil && x.Val == ssa.Value(al) }) || strings.Contains(t.String(), al.Comment) {
-									returned = true
+						var returnsTarget func(fn *ssa.Function, depth int) bool
+						returnsTarget = func(fn *ssa.Function, depth int) bool {
+							for _, r := range ir.Returns(fn) {
+								if len(r.Results) == 0 {
+									continue
+								}
+								rv := ir.Resolve(r.Results[0])
+								if u, ok := rv.(*ssa.UnOp); ok && u.Op == token.MUL && (ir.Root(u.X) == tgt || u.X == tgt) {
+									return true
+								}
+								if al, ok := tgt.(*ssa.Alloc); ok {
+									t := tb.Of(r.Results[0], nil)
+									if t.Has(func(x *ir.Term) bool { return x.Val != nil && x.Val == ssa.Value(al) }) || strings.Contains(t.String(), al.Comment) {
+										return true
+									}
+								}
+								// `return helper(...)`: the helper (of this method's own code) returns the target
+								var hc *ssa.Call
+								switch x := rv.(type) {
+								case *ssa.Call:
+									hc = x
+								case *ssa.Extract:
+									if x.Index == 0 {
+										hc, _ = x.Tuple.(*ssa.Call)
+									}
+								}
+								if hc != nil && depth < 3 {
+									if st := ir.Callee(hc).Static; st != nil && mi.tree[st] && st != fn && returnsTarget(st, depth+1) {
+										return true
+									}
 								}
 							}
+							return false
 						}
+						returned := returnsTarget(mi.fn, 0)
 						if returned {
 							c.R.Ok("R-data", fk+"|decode-target", fk, c.P.Pos(um.Pos()), "json.Unmarshal decodes into the variable that Load returns")
 						} else {
